@@ -1,4 +1,4 @@
-from . import cycle, sidecar, proxy, store, k8s, discovery, explore, pipeline, cfgsync, inject
+from . import cycle, sidecar, proxy, store, k8s, discovery, explore, pipeline, cfgsync, inject, loop
 CHECKS = {}
 for p in cycle.PROPS:
     CHECKS[p] = cycle.check
@@ -14,3 +14,5 @@ CHECKS['C02'] = pipeline.check
 CHECKS['C15'] = pipeline.check
 CHECKS['C16'] = cfgsync.check
 CHECKS['C11'] = inject.check
+CHECKS['C03'] = loop.check
+CHECKS['C06'] = loop.check
